@@ -57,6 +57,58 @@ def fresh(f, n, depth=0):
     return False
 
 
+def rule_h1(F, rep, rid, states):
+    rep.rule(rid, 'a data member of a service Impl class written during a top-level call is re-initialised by an unconditional plain write (assignment/clear) that dominates every other access of it in the entry function')
+    for rec_s, entry_s, documented in states:
+        rec = F.record(rec_s)
+        entry = F.fn1(entry_s)
+        own = [x['n'] for x in rec['fields']]
+        reach = F.reach([entry.key])
+        written = set()
+        for k in reach:
+            g = F.funcs[k]
+            for n in g.walk():
+                if n.get('k') == 'Member' and n.get('field') and n.get('q', '') == rec['qname'] + '::' + n['n'] and is_write_context(g, n):
+                    written.add(n['n'])
+        for fld in own:
+            key = '%s|%s|%s' % (rec_s.split('::')[-1], entry.short.split('::')[-1], fld)
+            if fld in documented:
+                rep.exempt(rid, key, documented[fld])
+                continue
+            if fld not in written:
+                rep.ok(rid, key, None, 'never written during this call')
+                continue
+            # candidate resets in the entry function itself or in a callee invoked unconditionally at its top level
+            cands = []
+            scopes = [(entry, None)]
+            for c in entry.walk():
+                if c.get('k') == 'Call' and c.get('mc') and is_this_like(c['c'][0]) and entry.enclosing_lambda(c) is None:
+                    for ck in F.callee_keys(c):
+                        if ck in F.funcs and F.funcs[ck].name in ('reset', 'clear', 'initialise', 'init'):
+                            scopes.append((F.funcs[ck], c))
+            good = None
+            for g, via in scopes:
+                for n in g.walk():
+                    if n.get('k') == 'Member' and n.get('field') and n['n'] == fld and n.get('q', '').startswith(rec['qname']):
+                        p = g.parent(n)
+                        plain = p is not None and ((p.get('k') == 'Bin' and p.get('op') == '=' and p['c'][0] is n) or (p.get('k') == 'Call' and p.get('opc') == '=' and p['c'][0] is n)
+                                                   or (p.get('k') == 'Call' and p.get('mc') and p['c'][0] is n and p.get('fn') == 'clear'))
+                        if not plain:
+                            continue
+                        # the new value must not depend on the old one
+                        if p.get('k') in ('Bin', 'Call') and len(p['c']) > 1 and any(x.get('k') == 'Member' and x.get('n') == fld for x in walk(p['c'][1])):
+                            continue
+                        anchor = via if via is not None else p
+                        others = [m for m in entry.walk() if m.get('k') == 'Member' and m.get('field') and m['n'] == fld and m is not n and entry.enclosing_lambda(m) is None]
+                        calls_touching = [c for c in entry.walk() if c.get('k') == 'Call' and c is not via and entry.enclosing_lambda(c) is None and any(
+                            k2 in F.funcs and fld in (fields.this_reads(F, F.funcs[k2]) | fields.this_writes(F, F.funcs[k2])) for k2 in F.callee_keys(c)) and c.get('mc') and is_this_like(c['c'][0])]
+                        cfg = entry.cfg()
+                        if all(cfg.node_dominates(anchor, m) for m in others) and all(cfg.node_dominates(anchor, c) for c in calls_touching):
+                            good = 'reset by `%s` before every other use' % render(p)[:50]
+            rep.check(good is not None, rid, key, entry.where(),
+                      '%s::%s is written during %s but is not unconditionally re-initialised before its first use in that call: the result depends on what the same object processed before' % (rec_s.split('::')[-1], fld, entry.short), good)
+
+
 def run(F, rep):
     # ------------------------------------------------------------------ G
     rep.rule('C12.G1', 'every call of a libxml2 process-global setter is paired, on every exit of the same function, with a call that restores the value the setter returned')
@@ -93,55 +145,7 @@ def run(F, rep):
         rep.check(ok, 'C12.I1', f.short, f.where(), '%s can add an issue before (or without) emptying the list: issues of an earlier call leak into this result' % f.short, 'removeAllIssues dominates %d issue-adding calls' % len(later))
 
     # ------------------------------------------------------------------ H
-    rep.rule('C12.H1', 'a data member of a service Impl class written during a top-level call is re-initialised by an unconditional plain write (assignment/clear) that dominates every other access of it in the entry function')
-    for rec_s, entry_s, documented in STATE:
-        rec = F.record(rec_s)
-        entry = F.fn1(entry_s)
-        own = [x['n'] for x in rec['fields']]
-        reach = F.reach([entry.key])
-        written = set()
-        for k in reach:
-            g = F.funcs[k]
-            for n in g.walk():
-                if n.get('k') == 'Member' and n.get('field') and n.get('q', '') == rec['qname'] + '::' + n['n'] and is_write_context(g, n):
-                    written.add(n['n'])
-        for fld in own:
-            key = '%s|%s|%s' % (rec_s.split('::')[-1], entry.short.split('::')[-1], fld)
-            if fld in documented:
-                rep.exempt('C12.H1', key, documented[fld])
-                continue
-            if fld not in written:
-                rep.ok('C12.H1', key, None, 'never written during this call')
-                continue
-            # candidate resets in the entry function itself or in a callee invoked unconditionally at its top level
-            cands = []
-            scopes = [(entry, None)]
-            for c in entry.walk():
-                if c.get('k') == 'Call' and c.get('mc') and is_this_like(c['c'][0]) and entry.enclosing_lambda(c) is None:
-                    for ck in F.callee_keys(c):
-                        if ck in F.funcs and F.funcs[ck].name in ('reset', 'clear', 'initialise', 'init'):
-                            scopes.append((F.funcs[ck], c))
-            good = None
-            for g, via in scopes:
-                for n in g.walk():
-                    if n.get('k') == 'Member' and n.get('field') and n['n'] == fld and n.get('q', '').startswith(rec['qname']):
-                        p = g.parent(n)
-                        plain = p is not None and ((p.get('k') == 'Bin' and p.get('op') == '=' and p['c'][0] is n) or (p.get('k') == 'Call' and p.get('opc') == '=' and p['c'][0] is n)
-                                                   or (p.get('k') == 'Call' and p.get('mc') and p['c'][0] is n and p.get('fn') == 'clear'))
-                        if not plain:
-                            continue
-                        # the new value must not depend on the old one
-                        if p.get('k') in ('Bin', 'Call') and len(p['c']) > 1 and any(x.get('k') == 'Member' and x.get('n') == fld for x in walk(p['c'][1])):
-                            continue
-                        anchor = via if via is not None else p
-                        others = [m for m in entry.walk() if m.get('k') == 'Member' and m.get('field') and m['n'] == fld and m is not n and entry.enclosing_lambda(m) is None]
-                        calls_touching = [c for c in entry.walk() if c.get('k') == 'Call' and c is not via and entry.enclosing_lambda(c) is None and any(
-                            k2 in F.funcs and fld in (fields.this_reads(F, F.funcs[k2]) | fields.this_writes(F, F.funcs[k2])) for k2 in F.callee_keys(c)) and c.get('mc') and is_this_like(c['c'][0])]
-                        cfg = entry.cfg()
-                        if all(cfg.node_dominates(anchor, m) for m in others) and all(cfg.node_dominates(anchor, c) for c in calls_touching):
-                            good = 'reset by `%s` before every other use' % render(p)[:50]
-            rep.check(good is not None, 'C12.H1', key, entry.where(),
-                      '%s::%s is written during %s but is not unconditionally re-initialised before its first use in that call: the result depends on what the same object processed before' % (rec_s.split('::')[-1], fld, entry.short), good)
+    rule_h1(F, rep, 'C12.H1', STATE)
 
     rep.rule('C12.H2', 'the analyser\'s per-instance units cache (exempt from H1 as model independent) is only filled under isStandardUnitName(key) with a freshly created Units of that name')
     n_c = 0
